@@ -22,7 +22,9 @@ LifeVerdict(ev) ==
 
 JudgeIpf(ev) ==
     IF ~IpfPre(ev.op, ev.o, ev.x, ev.pre) THEN "harness-pre"
-    ELSE IF ~(LegalW(ev.pre.f) /\ LegalW(ev.pre.g)) THEN "harness-state"
+    \* the projected state (bool + probe call) is not a wrapper state at all: e.g. bool says "not empty" but a call
+    \* reaches no target, or the capture reads a value no history stored - an observation about the implementation
+    ELSE IF ~(LegalW(ev.pre.f) /\ LegalW(ev.pre.g)) THEN "state"
     ELSE IF ~IpfPost(ev.op, ev.o, ev.x, ev.pre, ev.post, ev.ret, ev.calls, ev.handler) THEN
             (IF ev.op = "call" THEN "call" ELSE "post")
     ELSE IF ~IpfObsOK(ev.obs, ev.post) THEN "obs"
